@@ -151,7 +151,16 @@ func ruleE5(p *Program, c *Check, min int) {
 		} else {
 			detail = "equal to the reference on " + itoa(res.Labels) + " labelled terms over " + itoa(res.Cases) + " boolean cases"
 		}
-		c.Decide(res.OK, rule, sp.Key, "value-graph", p.fpos(sp.Code), detail)
+		construct := "value-graph"
+		if !res.OK {
+			fp := res.Finger
+			if fp == "" {
+				fp = "shape"
+			}
+			// the fingerprint (first differing label + hash of the code-side term) identifies this particular deviation
+			construct += "#" + stripPos(fp)
+		}
+		c.Decide(res.OK, rule, sp.Key, construct, p.fpos(sp.Code), detail)
 	}
 	sort.Strings(missing)
 	for _, k := range missing {
@@ -179,3 +188,8 @@ func driftKey(d string) string {
 	}
 	return d
 }
+
+var posInLabel = regexp.MustCompile(`\([^)]*\)`)
+
+// stripPos removes variable names and file:line parts from a label so that keys stay independent of positions and local names.
+func stripPos(s string) string { return posInLabel.ReplaceAllString(s, "") }
